@@ -222,3 +222,96 @@ pub(crate) fn stub_natural(_p: &ParsedParameters, key: &str) -> Result<usize, Er
     }
     Err(Error::General("missing parameter (side table)"))
 }
+
+// ---------------------------------------------------------------------------------------------
+// MockGrid: stands for any Grid behind Arc<dyn Grid>. Every call of at()/contains() draws a fresh symbolic answer
+// (so "for every grid, every sequence of hits and misses" is literal); bands() is fixed per instance.
+// Real grids fill only `bands` elements of the returned Coor4D and leave the others 0 (BaseGrid::at: Coor4D::origin()).
+// ---------------------------------------------------------------------------------------------
+#[derive(Debug)]
+pub(crate) struct MockGrid {
+    pub bands: usize,
+}
+pub(crate) static mut MOCK_CALLS: usize = 0;
+pub(crate) static mut MOCK_HITS: usize = 0;
+pub(crate) static mut MOCK_LAST: [f64; 4] = [0.0; 4];
+pub(crate) static mut MOCK_FIRST: [f64; 4] = [0.0; 4];
+impl Grid for MockGrid {
+    fn bands(&self) -> usize {
+        self.bands
+    }
+    fn contains(&self, _c: &Coor4D, _margin: f64) -> bool {
+        kani::any()
+    }
+    fn at(&self, _c: &Coor4D, _margin: f64) -> Option<Coor4D> {
+        unsafe {
+            MOCK_CALLS += 1;
+        }
+        if kani::any() {
+            let v: [f64; 4] = kani::any();
+            let mut d = [0.0; 4];
+            let mut i = 0;
+            while i < 4 {
+                if i < self.bands {
+                    d[i] = v[i];
+                }
+                i += 1;
+            }
+            unsafe {
+                if MOCK_HITS == 0 {
+                    MOCK_FIRST = d;
+                }
+                MOCK_HITS += 1;
+                MOCK_LAST = d;
+            }
+            Some(Coor4D(d))
+        } else {
+            None
+        }
+    }
+}
+/// Like MockGrid, but every hit delivers the zero correction (keeps arithmetic concrete when only control flow matters)
+#[derive(Debug)]
+pub(crate) struct MockGridZero {
+    pub bands: usize,
+}
+impl Grid for MockGridZero {
+    fn bands(&self) -> usize {
+        self.bands
+    }
+    fn contains(&self, _c: &Coor4D, _margin: f64) -> bool {
+        kani::any()
+    }
+    fn at(&self, _c: &Coor4D, _margin: f64) -> Option<Coor4D> {
+        unsafe {
+            MOCK_CALLS += 1;
+        }
+        if kani::any() {
+            unsafe {
+                MOCK_HITS += 1;
+            }
+            Some(Coor4D([0.0; 4]))
+        } else {
+            None
+        }
+    }
+}
+pub(crate) fn mock_grids(bands: usize) -> Vec<Arc<dyn Grid>> {
+    vec![Arc::new(MockGrid { bands })]
+}
+
+// libm functions CBMC has no model for: result is any value in the IEEE range of the function
+pub(crate) fn libm_hypot(_x: f64, _y: f64) -> f64 {
+    let r: f64 = kani::any();
+    kani::assume(r.is_nan() || r >= 0.0);
+    r
+}
+pub(crate) fn libm_any1(_x: f64) -> f64 {
+    kani::any()
+}
+pub(crate) fn libm_any2(_x: f64, _y: f64) -> f64 {
+    kani::any()
+}
+pub(crate) fn libm_sin_cos(_x: f64) -> (f64, f64) {
+    (kani::any(), kani::any())
+}
